@@ -45,4 +45,36 @@ PROPS = {
         "assumptions": ["Go's map iteration order is modelled as an arbitrary order of the association list; the theorem quantifies over all of them"],
         "trusted_base": ["modelled, not verified: dhcpv4.(*DHCPv4).ToBytes, Options.Marshal, sortedKeys"],
     },
+    "C02": {
+        "coq_files": BASE + ["Label/", "V4/", "V6/", "Gen/", "Tie/", "Props/C02.v"],
+        "tie_lemmas": ["v6_dispatch_codes_match", "v6_all_table_entries_modelled", "v6_classify_matches_table", "v6_other_codes_generic", "v6_ntp_codes_match"],
+        "rule": "messages and relay chains (depth 0..8 quick / 0..64 thorough) of 0..20 options drawn from the ParseOption table extracted from the "
+                "source tree on this run (Gen/Tables.v) plus unknown codes, every field over its domain with boundary bias; the generator writes the RFC "
+                "wire layout itself (independent encoder) and builds the library value through exported constructors; direct oracle: ToBytes == RFC layout, "
+                "FromBytes(ToBytes(m)) == m (value-tree dump); tie: FromBytes dump and re-encoding vs dec_msg / enc_msg, each known type also through ParseOption; "
+                "non-trivial = distinct case with ok result",
+        "assumptions": ["durations are whole seconds (wire value), compared as uint32 seconds"],
+        "trusted_base": ["modelled, not verified: dhcpv6.FromBytes, ParseOption, every option FromBytes/ToBytes, DUIDs, Message/RelayMessage.ToBytes",
+                         "tools/gen (Go AST extractor for the ParseOption table)"],
+    },
+    "C05": {
+        "coq_files": BASE + ["Label/", "V4/", "V6/", "Gen/", "Tie/", "Props/C05.v"],
+        "model_is_spec": True,
+        "tie_lemmas": ["v6_dispatch_codes_match", "v6_other_codes_generic", "v6_relay_types_match", "v6_relay_header_match"],
+        "rule": "exhaustive TLV framings over codes {1,3,5,8,25,9,0xFFFF} x lengths {0,1,2,4,12,255} up to 2 (quick) / 3 (thorough) options with exact/short/long "
+                "payloads behind message and relay headers; every header truncation; per known type every truncation, extension by 1..3 octets and length-field "
+                "perturbation at the outer and inner levels; random/mutated messages up to 4096 octets; DUIDs; each input: verdict + full value tree vs the model "
+                "decoder (the RFC reference reading); non-trivial = distinct accepted input",
+        "assumptions": ["the model decoder is the independently written RFC decoder; its acceptance properties are the C05 theorems"],
+        "trusted_base": ["modelled, not verified: dhcpv6.FromBytes, MessageFromBytes, RelayMessageFromBytes, ParseOption, DUIDFromBytes"],
+    },
+    "C06": {
+        "coq_files": BASE + ["Label/", "V4/", "V6/", "Props/C06.v"],
+        "rule": "accepted byte strings, canonical or not: DHCPv4 mutated valid packets and non-canonical areas (unsorted, split, padded, repeated codes, names "
+                "without terminator, hlen > 16); DHCPv6 generated/mutated messages with nesting, every IA-prefix length 0..255, 4RD rules with all prefix-length/flag "
+                "combinations, ORO duplicates, compressed/partial names in options 24/39/56; direct oracle on the public API: b->m1->b1->m2->b2 with m2 == norm(m1) "
+                "and b2 == b1; tie: re-encoding and decoding vs the model; non-trivial = distinct accepted input",
+        "assumptions": ["allowed normalisations: v4 option order/padding/splitting, names cut to 63/127, ORO duplicates, 4RD reserved bits, IA-prefix address when length 0"],
+        "trusted_base": ["modelled, not verified: the v4 and v6 codecs"],
+    },
 }
